@@ -6,41 +6,57 @@ open CC
 
 /-! ## constructor, destructor -/
 
-/-- `cc_deque_new_conf` for **every** configured capacity (power of two or not, zero included): either an
-empty deque satisfying the invariant whose capacity is `upper_pow_two(configured)` and two blocks owned,
-or `CC_ERR_ALLOC`, no object and a balanced ledger -/
-theorem new_spec (confCap : Nat) (m : Mem) :
-    ((Deque.new confCap m).1 = .ok ∧ ∃ d, (Deque.new confCap m).2.1 = some d ∧ d.Inv ∧ d.abs = [] ∧
-      d.cap = upperPow2 confCap ∧ (Deque.new confCap m).2.2.live = m.live + 2 ∧
-      (Deque.new confCap m).2.2.fault = m.fault ∧ m.alloc.1 = true ∧ m.alloc.2.alloc.1 = true) ∨
-    ((Deque.new confCap m).1 = .errAlloc ∧ (Deque.new confCap m).2.1 = none ∧
-      memSame (Deque.new confCap m).2.2 m ∧ (m.alloc.1 = false ∨ m.alloc.2.alloc.1 = false)) := by
-  cases h1 : m.alloc.1
+/-- two successful allocator calls through `t`: two more blocks -/
+theorem alloc2_ok (t : Triple) (m : Mem) (h1 : (m.allocT t).1 = true) (h2 : ((m.allocT t).2.allocT t).1 = true) :
+    memRel t 2 ((m.allocT t).2.allocT t).2 m := by
+  have := memRel_trans (allocT_ok t _ h2) (allocT_ok t m h1)
+  simpa using this
+
+/-- first call succeeds, second is refused, first block released again: balanced -/
+theorem alloc_refused2_same (t : Triple) (m : Mem) (h1 : (m.allocT t).1 = true)
+    (h2 : ((m.allocT t).2.allocT t).1 = false) : memSame t (((m.allocT t).2.allocT t).2.freeT t) m := by
+  have a1 := allocT_ok t m h1
+  have a2 := (allocT_refused t _ h2).1
+  have a12 : memRel t 1 ((m.allocT t).2.allocT t).2 m := memRel_same a2 a1
+  have f := freeT_ok t ((m.allocT t).2.allocT t).2 (by have := a12.1; omega)
+  exact memD_norm (k := 0) (j := 1) (by simpa using memD_trans f a12)
+
+/-- `cc_deque_new_conf` for **every** configured capacity (power of two or not, zero included) and either
+triple: either an empty deque satisfying the invariant whose capacity is `upper_pow_two(configured)`, which
+carries the triple it was built with and owns two more blocks on it — or `CC_ERR_ALLOC`, no object and a
+balanced ledger -/
+theorem new_spec (confCap : Nat) (t : Triple) (m : Mem) :
+    ((Deque.new confCap t m).1 = .ok ∧ ∃ d, (Deque.new confCap t m).2.1 = some d ∧ d.Inv ∧ d.abs = [] ∧
+      d.cap = upperPow2 confCap ∧ d.triple = t ∧ memRel t 2 (Deque.new confCap t m).2.2 m ∧
+      (m.allocT t).1 = true ∧ ((m.allocT t).2.allocT t).1 = true) ∨
+    ((Deque.new confCap t m).1 = .errAlloc ∧ (Deque.new confCap t m).2.1 = none ∧
+      memSame t (Deque.new confCap t m).2.2 m ∧
+      ((m.allocT t).1 = false ∨ ((m.allocT t).2.allocT t).1 = false)) := by
+  cases h1 : (m.allocT t).1
   · right
-    have : Deque.new confCap m = (.errAlloc, none, m.alloc.2) := by simp [Deque.new, h1]
+    have : Deque.new confCap t m = (.errAlloc, none, (m.allocT t).2) := by simp [Deque.new, h1]
     rw [this]
-    exact ⟨rfl, rfl, alloc_refused_same m h1, Or.inl rfl⟩
-  · have e1 := Mem.alloc_fst_true m h1
-    cases h2 : m.alloc.2.alloc.1
+    exact ⟨rfl, rfl, (allocT_refused t m h1).1, Or.inl rfl⟩
+  · cases h2 : ((m.allocT t).2.allocT t).1
     · right
-      have : Deque.new confCap m = (.errAlloc, none, m.alloc.2.alloc.2.free) := by simp [Deque.new, h1, h2]
+      have : Deque.new confCap t m = (.errAlloc, none, ((m.allocT t).2.allocT t).2.freeT t) := by
+        simp [Deque.new, h1, h2]
       rw [this]
-      exact ⟨rfl, rfl, alloc_refused2_same m h1 h2, Or.inr rfl⟩
+      exact ⟨rfl, rfl, alloc_refused2_same t m h1 h2, Or.inr rfl⟩
     · left
-      have : Deque.new confCap m = (.ok, some (Deque.mk 0 (upperPow2 confCap) 0 0 (Buf.mk (upperPow2 confCap))), m.alloc.2.alloc.2) := by simp [Deque.new, h1, h2]
+      have : Deque.new confCap t m = (.ok, some (Deque.mk 0 (upperPow2 confCap) 0 0 (Buf.mk (upperPow2 confCap)) t),
+          ((m.allocT t).2.allocT t).2) := by simp [Deque.new, h1, h2]
       rw [this]
-      have e2 := Mem.alloc_fst_true m.alloc.2 h2
       refine ⟨rfl, _, rfl, ⟨(upperPow2_inv confCap).1, (upperPow2_inv confCap).2, by simp, upperPow2_pos confCap, ?_, Nat.zero_le _⟩,
-        by simp [abs], rfl, by simp only; omega, by simp only; rw [e2.2.1, e1.2.1], rfl, rfl⟩
+        by simp [abs], rfl, rfl, alloc2_ok t m h1 h2, rfl, rfl⟩
       simp
 
-/-- `cc_deque_destroy` releases exactly the two blocks a deque owns -/
-theorem destroy_ledger (d : Deque) (m : Mem) (h : 2 ≤ m.live) :
-    (d.destroy m).live = m.live - 2 ∧ (d.destroy m).fault = m.fault := by
+/-- `cc_deque_destroy` releases exactly the two blocks a deque owns, through the deque's own triple -/
+theorem destroy_ledger (d : Deque) (m : Mem) (h : 2 ≤ liveOf d.triple m) : memD d.triple 0 2 (d.destroy m) m := by
   unfold destroy
-  obtain ⟨f1, f2, _, _⟩ := free_of_pos m (by omega)
-  obtain ⟨g1, g2, _, _⟩ := free_of_pos m.free (by omega)
-  exact ⟨by omega, by rw [g2, f2]⟩
+  have f1 := freeT_ok d.triple m (by omega)
+  have f2 := freeT_ok d.triple (m.freeT d.triple) (by have := f1.1; omega)
+  simpa using memD_trans f2 f1
 
 /-! ## `trim_capacity` -/
 
@@ -56,10 +72,10 @@ theorem upperPow2_of_full (d : Deque) (hi : d.Inv) (h : d.cap = d.size) : upperP
 balanced — or `CC_ERR_ALLOC` with the whole state unchanged -/
 theorem trimCapacity_spec (d : Deque) (m : Mem) (hi : d.Inv) :
     ((d.trimCapacity m).1 = .ok ∧ (d.trimCapacity m).2.1.Inv ∧ (d.trimCapacity m).2.1.abs = d.abs ∧
-      memSame (d.trimCapacity m).2.2 m ∧ (d.trimCapacity m).2.1.cap = upperPow2 d.size ∧
+      memSame d.triple (d.trimCapacity m).2.2 m ∧ (d.trimCapacity m).2.1.cap = upperPow2 d.size ∧
       d.size ≤ (d.trimCapacity m).2.1.cap ∧ (d.trimCapacity m).2.1.cap ≤ d.cap) ∨
-    ((d.trimCapacity m).1 = .errAlloc ∧ (d.trimCapacity m).2.1 = d ∧ memSame (d.trimCapacity m).2.2 m ∧
-      m.alloc.1 = false ∧ upperPow2 d.size ≠ d.cap) := by
+    ((d.trimCapacity m).1 = .errAlloc ∧ (d.trimCapacity m).2.1 = d ∧ memSame d.triple (d.trimCapacity m).2.2 m ∧
+      (m.allocT d.triple).1 = false ∧ upperPow2 d.size ≠ d.cap) := by
   have hi' := hi
   obtain ⟨hpw, hmax, hl, hf, hla, hsz⟩ := hi
   have hge := upperPow2_ge d.size (by omega)
@@ -70,24 +86,24 @@ theorem trimCapacity_spec (d : Deque) (m : Mem) (hi : d.Inv) :
   · left
     have : d.trimCapacity m = (.ok, d, m) := by simp [trimCapacity, hfull]
     rw [this]
-    exact ⟨rfl, hi', rfl, memSame_refl m, (upperPow2_of_full d hi' hfull).symm, by simp only; omega, Nat.le_refl _⟩
+    exact ⟨rfl, hi', rfl, memSame_refl _ m, (upperPow2_of_full d hi' hfull).symm, by simp only; omega, Nat.le_refl _⟩
   by_cases hsame : upperPow2 d.size = d.cap
   · left
     have : d.trimCapacity m = (.ok, d, m) := by simp [trimCapacity, hfull, hsame]
     rw [this]
-    exact ⟨rfl, hi', rfl, memSame_refl m, hsame.symm, hsz, Nat.le_refl _⟩
-  cases ha : m.alloc.1
+    exact ⟨rfl, hi', rfl, memSame_refl _ m, hsame.symm, hsz, Nat.le_refl _⟩
+  cases ha : (m.allocT d.triple).1
   · right
-    have : d.trimCapacity m = (.errAlloc, d, m.alloc.2) := by simp [trimCapacity, hfull, hsame, ha]
+    have : d.trimCapacity m = (.errAlloc, d, (m.allocT d.triple).2) := by simp [trimCapacity, hfull, hsame, ha]
     rw [this]
-    exact ⟨rfl, rfl, alloc_refused_same m ha, rfl, hsame⟩
+    exact ⟨rfl, rfl, (allocT_refused _ m ha).1, rfl, hsame⟩
   · left
     have : d.trimCapacity m = (.ok, Deque.mk d.size (upperPow2 d.size) 0 (d.size % upperPow2 d.size)
-        (d.copyBuffer (Buf.mk (upperPow2 d.size)) none m.alloc.2).1,
-        (d.copyBuffer (Buf.mk (upperPow2 d.size)) none m.alloc.2).2.free) := by
+        (d.copyBuffer (Buf.mk (upperPow2 d.size)) none (m.allocT d.triple).2).1 d.triple,
+        (d.copyBuffer (Buf.mk (upperPow2 d.size)) none (m.allocT d.triple).2).2.freeT d.triple) := by
       simp [trimCapacity, hfull, hsame, ha]
     rw [this]
-    obtain ⟨b1, b2, b3, _⟩ := copyBuffer_none d (Buf.mk (upperPow2 d.size)) m.alloc.2 hi' (by simpa using hge)
+    obtain ⟨b1, b2, b3, _⟩ := copyBuffer_none d (Buf.mk (upperPow2 d.size)) (m.allocT d.triple).2 hi' (by simpa using hge)
     have hp := upperPow2_pos d.size
     refine ⟨rfl, ⟨(upperPow2_inv d.size).1, (upperPow2_inv d.size).2, by simp [b1], hp, by simp, hge⟩, ?_, ?_,
       rfl, hge, hle⟩
@@ -97,57 +113,58 @@ theorem trimCapacity_spec (d : Deque) (m : Mem) (hi : d.Inv) :
         simp only [Nat.zero_add]
         rw [Nat.mod_eq_of_lt (by omega)]
         exact b3 i hi
-    · simp only [b2]; exact alloc_free_same m ha
+    · simp only [b2]; exact alloc_free_same _ m ha
 
 /-! ## copies -/
 
 /-- **`cc_deque_copy_shallow` / `cc_deque_copy_deep`** (C15): either a new deque that satisfies the
-invariant, has the source's capacity (so it can be used and grown like any deque) and holds exactly the
-source's elements in order (their images under the copy function for a deep copy), two more blocks
-owned; or `CC_ERR_ALLOC`, no object and a balanced ledger.  The source is not an output of the model
-function, i.e. it is unchanged. -/
+invariant, has the source's capacity **and the source's allocator triple** (so it can be used and grown
+like any deque) and holds exactly the source's elements in order (their images under the copy function for
+a deep copy), two more blocks owned through that triple; or `CC_ERR_ALLOC`, no object and a balanced
+ledger.  The source is not an output of the model function. -/
 theorem copy_spec (d : Deque) (cp : Option (Nat → Nat)) (m : Mem) (hi : d.Inv) :
     ((d.copy cp m).1 = .ok ∧ ∃ c, (d.copy cp m).2.1 = some c ∧ c.Inv ∧
-      c.abs = (match cp with | none => d.abs | some f => d.abs.map f) ∧ c.cap = d.cap ∧
-      (d.copy cp m).2.2.live = m.live + 2 ∧ (d.copy cp m).2.2.fault = m.fault) ∨
-    ((d.copy cp m).1 = .errAlloc ∧ (d.copy cp m).2.1 = none ∧ memSame (d.copy cp m).2.2 m ∧
-      (m.alloc.1 = false ∨ m.alloc.2.alloc.1 = false)) := by
+      c.abs = (match cp with | none => d.abs | some f => d.abs.map f) ∧ c.cap = d.cap ∧ c.triple = d.triple ∧
+      memRel d.triple 2 (d.copy cp m).2.2 m ∧
+      (d.copy cp m).2.2 = ((m.allocT d.triple).2.allocT d.triple).2) ∨
+    ((d.copy cp m).1 = .errAlloc ∧ (d.copy cp m).2.1 = none ∧ memSame d.triple (d.copy cp m).2.2 m ∧
+      ((m.allocT d.triple).1 = false ∨ ((m.allocT d.triple).2.allocT d.triple).1 = false)) := by
   have hi' := hi
   have hpos := Inv.cap_pos hi
   obtain ⟨hpw, hmax, hl, hf, hla, hsz⟩ := hi
-  cases h1 : m.alloc.1
+  cases h1 : (m.allocT d.triple).1
   · right
-    have : d.copy cp m = (.errAlloc, none, m.alloc.2) := by simp [copy, h1]
+    have : d.copy cp m = (.errAlloc, none, (m.allocT d.triple).2) := by simp [copy, h1]
     rw [this]
-    exact ⟨rfl, rfl, alloc_refused_same m h1, Or.inl rfl⟩
-  · have e1 := Mem.alloc_fst_true m h1
-    cases h2 : m.alloc.2.alloc.1
+    exact ⟨rfl, rfl, (allocT_refused _ m h1).1, Or.inl rfl⟩
+  · cases h2 : ((m.allocT d.triple).2.allocT d.triple).1
     · right
-      have : d.copy cp m = (.errAlloc, none, m.alloc.2.alloc.2.free) := by simp [copy, h1, h2]
+      have : d.copy cp m = (.errAlloc, none, ((m.allocT d.triple).2.allocT d.triple).2.freeT d.triple) := by
+        simp [copy, h1, h2]
       rw [this]
-      exact ⟨rfl, rfl, alloc_refused2_same m h1 h2, Or.inr rfl⟩
+      exact ⟨rfl, rfl, alloc_refused2_same _ m h1 h2, Or.inr rfl⟩
     · left
       have : d.copy cp m = (.ok, some (Deque.mk d.size d.cap 0 (d.size % d.cap)
-          (d.copyBuffer (Buf.mk d.cap) cp m.alloc.2.alloc.2).1),
-          (d.copyBuffer (Buf.mk d.cap) cp m.alloc.2.alloc.2).2) := by simp [copy, h1, h2]
+          (d.copyBuffer (Buf.mk d.cap) cp ((m.allocT d.triple).2.allocT d.triple).2).1 d.triple),
+          (d.copyBuffer (Buf.mk d.cap) cp ((m.allocT d.triple).2.allocT d.triple).2).2) := by simp [copy, h1, h2]
       rw [this]
-      have e2 := Mem.alloc_fst_true m.alloc.2 h2
+      have hrel := alloc2_ok _ m h1 h2
       cases cp with
       | none =>
-        obtain ⟨b1, b2, b3, _⟩ := copyBuffer_none d (Buf.mk d.cap) m.alloc.2.alloc.2 hi' (by simpa using hsz)
-        refine ⟨rfl, _, rfl, ⟨hpw, hmax, by simp [b1], hpos, by simp, hsz⟩, ?_, rfl, ?_, ?_⟩
+        obtain ⟨b1, b2, b3, _⟩ := copyBuffer_none d (Buf.mk d.cap) ((m.allocT d.triple).2.allocT d.triple).2 hi'
+          (by simpa using hsz)
+        refine ⟨rfl, _, rfl, ⟨hpw, hmax, by simp [b1], hpos, by simp, hsz⟩, ?_, rfl, rfl, ?_, ?_⟩
         · apply abs_congr
           · rfl
           · intro i hi
             simp only [Nat.zero_add]
-            by_cases hfull : d.size = d.cap
-            · rw [Nat.mod_eq_of_lt (by omega)]; exact b3 i hi
-            · rw [Nat.mod_eq_of_lt (by omega)]; exact b3 i hi
-        · simp only [b2]; omega
-        · simp only [b2]; rw [e2.2.1, e1.2.1]
+            rw [Nat.mod_eq_of_lt (by omega)]; exact b3 i hi
+        · simp only [b2]; exact hrel
+        · simp only [b2]
       | some f =>
-        obtain ⟨b1, b2, b3⟩ := copyBuffer_some d f (Buf.mk d.cap) m.alloc.2.alloc.2 hi' (by simpa using hsz)
-        refine ⟨rfl, _, rfl, ⟨hpw, hmax, by simp [b1], hpos, by simp, hsz⟩, ?_, rfl, ?_, ?_⟩
+        obtain ⟨b1, b2, b3⟩ := copyBuffer_some d f (Buf.mk d.cap) ((m.allocT d.triple).2.allocT d.triple).2 hi'
+          (by simpa using hsz)
+        refine ⟨rfl, _, rfl, ⟨hpw, hmax, by simp [b1], hpos, by simp, hsz⟩, ?_, rfl, rfl, ?_, ?_⟩
         · apply List.ext_getElem
           · simp
           · intro i h1 h2
@@ -156,8 +173,8 @@ theorem copy_spec (d : Deque) (cp : Option (Nat → Nat)) (m : Mem) (hi : d.Inv)
             simp only [Nat.zero_add]
             rw [Nat.mod_eq_of_lt (by omega)]
             exact b3 i hi
-        · simp only [b2]; omega
-        · simp only [b2]; rw [e2.2.1, e1.2.1]
+        · simp only [b2]; exact hrel
+        · simp only [b2]
 
 /-! ## `reverse` -/
 
@@ -228,7 +245,7 @@ theorem slotsOk_of_inv (d : Deque) (hi : d.Inv) : d.slotsOk = true := by
   rw [List.all_eq_true]
   intro i _
   simp only [decide_eq_true_eq]
-  exact Nat.lt_of_lt_of_le (Nat.mod_lt _ hpos) hi.2.2.1
+  exact Nat.lt_of_lt_of_le (Nat.mod_lt _ hpos) (Nat.le_of_eq hi.2.2.1.symm)
 
 /-- a `for` loop with early exit over `0..n-1` finds the first index whose element satisfies `p` -/
 theorem find_range_eq_findIdx (g : Nat → Nat) (p : Nat → Bool) (n : Nat) :
@@ -340,7 +357,7 @@ theorem filterMutLoop_spec (pred : Nat → Bool) (fuel : Nat) (d : Deque) (i : N
     by_cases hlt : i < d.size
     · rw [if_pos hlt]
       have hpos := Inv.cap_pos hi
-      have hslot : (d.first + i) % d.cap < d.buf.length := Nat.lt_of_lt_of_le (Nat.mod_lt _ hpos) hi.2.2.1
+      have hslot : (d.first + i) % d.cap < d.buf.length := Nat.lt_of_lt_of_le (Nat.mod_lt _ hpos) (Nat.le_of_eq hi.2.2.1.symm)
       have hrd : (rd d.buf ((d.first + i) % d.cap) m).2 = m := rd_snd _ _ _ hslot
       have hlen : i < d.abs.length := by simpa using hlt
       have hel : d.abs[i] = d.buf.get ((d.first + i) % d.cap) := abs_getElem d i hlen
@@ -406,7 +423,7 @@ theorem filterLoop_spec (d : Deque) (pred : Nat → Bool) (is : List Nat) (f : D
   | nil => exact ⟨rfl, by simp [filterLoop], hf, rfl, rfl⟩
   | cons i is ih =>
     unfold filterLoop
-    have hslot : d.slot i < d.buf.length := Nat.lt_of_lt_of_le (Nat.mod_lt _ hpos) hd.2.2.1
+    have hslot : d.slot i < d.buf.length := Nat.lt_of_lt_of_le (Nat.mod_lt _ hpos) (Nat.le_of_eq hd.2.2.1.symm)
     have hrd : (rd d.buf (d.slot i) m).2 = m := rd_snd _ _ _ hslot
     simp only [rd_fst, hrd, List.map_cons, List.length_cons] at hroom ⊢
     cases hp : pred (d.buf.get (d.slot i))
@@ -428,6 +445,19 @@ theorem filterLoop_spec (d : Deque) (pred : Nat → Bool) (is : List Nat) (f : D
       refine ⟨q1, ?_, q3, by rw [q4, a4], by rw [q5, a5]⟩
       rw [q2, a3, List.filter_cons, hp]; simp
 
+theorem filterLoop_triple (d : Deque) (pred : Nat → Bool) (is : List Nat) (f : Deque) (m : Mem) :
+    (filterLoop d pred is f m).2.1.triple = f.triple := by
+  induction is generalizing f m with
+  | nil => rfl
+  | cons i is ih =>
+    unfold filterLoop
+    dsimp only
+    split
+    · split
+      · exact addLast_triple f _ _
+      · rw [ih]; exact addLast_triple f _ _
+    · exact ih _ _
+
 theorem upperPow2_of_cap (d : Deque) (hi : d.Inv) : upperPow2 d.cap = d.cap := by
   have h1 := upperPow2_ge d.cap hi.2.1
   have h2 := upperPow2_least d.cap d.cap.log2 (by rw [← hi.1]; exact Nat.le_refl _)
@@ -436,15 +466,18 @@ theorem upperPow2_of_cap (d : Deque) (hi : d.Inv) : upperPow2 d.cap = d.cap := b
 
 open CC.Spec in
 /-- **`cc_deque_filter`** (C15): rejected (no object) on an empty source; otherwise either a new deque
-with the source's capacity holding exactly the elements that satisfy the predicate, in source order, two
-more blocks owned — or `CC_ERR_ALLOC`, no object and a balanced ledger -/
+with the source's capacity and allocator triple holding exactly the elements that satisfy the predicate, in
+source order, two more blocks owned (the result never grows while it is filled: its ledger is the
+constructor's) — or `CC_ERR_ALLOC`, no object and a balanced ledger -/
 theorem filter_spec (d : Deque) (pred : Nat → Bool) (m : Mem) (hi : d.Inv) :
     (d.size = 0 ∧ d.filter pred m = (.errOutOfRange, none, m) ∧ (DequeSpec.filter d.abs pred).1 = .errOutOfRange) ∨
     (d.size ≠ 0 ∧ (d.filter pred m).1 = .ok ∧ (DequeSpec.filter d.abs pred).1 = .ok ∧
       ∃ c, (d.filter pred m).2.1 = some c ∧ c.Inv ∧ some c.abs = (DequeSpec.filter d.abs pred).2 ∧
-        c.cap = d.cap ∧ (d.filter pred m).2.2.live = m.live + 2 ∧ (d.filter pred m).2.2.fault = m.fault) ∨
+        c.cap = d.cap ∧ c.triple = d.triple ∧ memRel d.triple 2 (d.filter pred m).2.2 m ∧
+        (d.filter pred m).2.2 = ((m.allocT d.triple).2.allocT d.triple).2) ∨
     (d.size ≠ 0 ∧ (d.filter pred m).1 = .errAlloc ∧ (d.filter pred m).2.1 = none ∧
-      memSame (d.filter pred m).2.2 m ∧ (m.alloc.1 = false ∨ m.alloc.2.alloc.1 = false)) := by
+      memSame d.triple (d.filter pred m).2.2 m ∧
+      ((m.allocT d.triple).1 = false ∨ ((m.allocT d.triple).2.allocT d.triple).1 = false)) := by
   by_cases h0 : d.size = 0
   · left
     have : d.abs = [] := List.eq_nil_of_length_eq_zero (by simp [h0])
@@ -459,21 +492,63 @@ theorem filter_spec (d : Deque) (pred : Nat → Bool) (m : Mem) (hi : d.Inv) :
     unfold filter
     rw [if_neg h0]
     dsimp only
-    rcases new_spec d.cap m with ⟨n1, c0, n2, n3, n4, n5, n6, n7, n8⟩ | ⟨n1, n2, n3, n4⟩
+    rcases new_spec d.cap d.triple m with ⟨n1, c0, n2, n3, n4, n5, n6, n7, n8, n9⟩ | ⟨n1, n2, n3, n4⟩
     · left
       rw [n2]
       dsimp only
+      have hmem : (Deque.new d.cap d.triple m).2.2 = ((m.allocT d.triple).2.allocT d.triple).2 := by
+        simp [Deque.new, n8, n9]
       have hsz0 : c0.size = 0 := by have := congrArg List.length n4; simpa using this
       have hcap : c0.cap = d.cap := by rw [n5, upperPow2_of_cap d hi]
-      obtain ⟨q1, q2, q3, q4, q5⟩ := filterLoop_spec d pred (List.range d.size) c0 (Deque.new d.cap m).2.2 hi n3
+      obtain ⟨q1, q2, q3, q4, q5⟩ := filterLoop_spec d pred (List.range d.size) c0 (Deque.new d.cap d.triple m).2.2 hi n3
         (by rw [hsz0, hcap]; simp; exact hi.2.2.2.2.2)
-      have hne' : ((filterLoop d pred (List.range d.size) c0 (Deque.new d.cap m).2.2).1 != Stat.ok) = false := by
+      have htr : (filterLoop d pred (List.range d.size) c0 (Deque.new d.cap d.triple m).2.2).2.1.triple = c0.triple :=
+        filterLoop_triple d pred _ c0 _
+      have hne' : ((filterLoop d pred (List.range d.size) c0 (Deque.new d.cap d.triple m).2.2).1 != Stat.ok) = false := by
         simp [q1]
       simp only [hne', Bool.false_eq_true, if_false]
-      refine ⟨h0, trivial, by rw [hspec], _, rfl, q3, ?_, by rw [q5, hcap], by rw [q4]; exact n6, by rw [q4]; exact n7⟩
+      refine ⟨h0, trivial, by rw [hspec], _, rfl, q3, ?_, by rw [q5, hcap], by rw [htr, n6], by rw [q4]; exact n7,
+        by rw [q4, hmem]⟩
       rw [hspec, q2, n4]; rfl
     · right
       rw [n2]
       exact ⟨h0, n1, rfl, n3, n4⟩
+
+/-! ## the allocator triple never changes -/
+
+theorem trimCapacity_triple (d : Deque) (m : Mem) : (d.trimCapacity m).2.1.triple = d.triple := by
+  unfold trimCapacity
+  split; · rfl
+  dsimp only
+  split; · rfl
+  split <;> rfl
+
+theorem reverse_triple (d : Deque) (m : Mem) : (d.reverse m).1.triple = d.triple := rfl
+
+theorem remove_triple (d : Deque) (x : Nat) (m : Mem) : (d.remove x m).2.2.1.triple = d.triple := by
+  unfold remove
+  dsimp only
+  split
+  · rfl
+  · exact removeAt_triple d _ _
+
+theorem filterMutLoop_triple (pred : Nat → Bool) (fuel : Nat) (d : Deque) (i : Nat) (m : Mem) :
+    (filterMutLoop pred fuel d i m).1.triple = d.triple := by
+  induction fuel generalizing d i m with
+  | zero => rfl
+  | succ fuel ih =>
+    unfold filterMutLoop
+    split
+    · dsimp only
+      split
+      · rw [ih]; exact removeAt_triple d i _
+      · exact ih _ _ _
+    · rfl
+
+theorem filterMut_triple (d : Deque) (pred : Nat → Bool) (m : Mem) : (d.filterMut pred m).2.1.triple = d.triple := by
+  unfold filterMut
+  split
+  · rfl
+  · exact filterMutLoop_triple pred _ d 0 m
 
 end CC.Deque
